@@ -43,7 +43,7 @@ def mv_cell(draw):
 
 @st.composite
 def frame(draw):
-    n = draw(st.integers(1, 60))
+    n = draw(st.one_of(st.integers(1, 60), st.integers(1, 60), st.integers(46, 60)))
     cols = {}
     for name in ('mv0', 'mv1'):
         cells = draw(st.lists(mv_cell(), min_size=1, max_size=5))
@@ -58,7 +58,8 @@ def frame(draw):
     confusable = not wide and n >= 4 and draw(st.integers(0, 5)) == 0
     for name in ('a', 'b', 'c'):
         if wide and name in ('a', 'b'):
-            kk = draw(st.integers(11, 16))
+            # 11-16 values per selector column (> 128 pairs), now and then 33-45 (> 1024 pairs: more than one block of any blocked scheme)
+            kk = draw(st.integers(11, 16)) if draw(st.integers(0, 1)) or n < 46 else draw(st.integers(33, 45))
             seq = draw(st.permutations(list(range(kk))))
             cols[name] = [f'{name}{seq[(i * (3 if name == "a" else 5) + i // kk) % kk]}' for i in range(n)]
             continue
@@ -96,6 +97,8 @@ def case_sub(draw):
     mapping = draw(sub_specs())
     if (max(len(set(fr['cols'][c])) for c in ('a', 'b')) > 10 or 'uANDv' in fr['cols']['a'] or 'uAND' in fr['cols']['a']) and draw(st.booleans()):
         mapping = draw(st.sampled_from(['a<->b', 'b<->a', 'a<->b;c->a']))      # > 128 (first, second) value combinations / confusable joins
+    if min(len(set(fr['cols'][c])) for c in ('a', 'b')) > 32:
+        mapping = draw(st.sampled_from(['a<->b', 'b<->a']))       # more than 1024 two-sided value combinations
     return {'frame': fr, 'mapping': mapping, 'earlier': draw(st.sampled_from([0, 0, 1, 3]))}
 
 
